@@ -2814,7 +2814,10 @@ guess_file_type (SF_PRIVATE *psf)
 
 retry:
 	if (psf_binheader_readf (psf, "b", &buffer, SIGNED_SIZEOF (buffer)) != SIGNED_SIZEOF (buffer))
-	{	psf->error = SFE_BAD_FILE_READ ;
+	{	/* Too short for any header : a Sound Designer II file still has all its parameters in the resource fork. */
+		if (psf->filelength > 0 && (format = try_resource_fork (psf)) != 0)
+			return format ;
+		psf->error = SFE_BAD_FILE_READ ;
 		return 0 ;
 		} ;
 
